@@ -69,7 +69,7 @@ def relation_on_edge(body, switch_bb, target):
     l = op_local(body.blocks[switch_bb]["t"]["op"])
     if l is None:
         return None
-    neg, atom = guards.cond_atom(body, l)
+    neg, atom = guards.cond_atom(body, l, at=switch_bb)
     if atom[0] != "cmp":
         return None
     op = atom[1]
@@ -140,6 +140,14 @@ def field_mut_calls(F, adt, field, grep_hint=None):
     return out
 
 
+def field_mut_calls_in(b, adt, field):
+    """field_mut_calls restricted to one (possibly flattened) body: [(bb, callee)]"""
+    import alias
+    og = alias.Origins(b)
+    return [(site["bb"], site["callee"]) for site in alias.field_touch(b, og, adt, field)
+            if site["kind"] == "call" and site["direct"]]
+
+
 def flags_set_after_call(F, parent, callee_suffix):
     """Locals of `parent` that a closure of it sets to `true` (through a by-reference capture) on the Some/Err edge of a
     call to `callee_suffix`: the structural identity of an `invalid input seen` flag, independent of its name.
@@ -205,3 +213,21 @@ def flags_set_after_call(F, parent, callee_suffix):
             return None
         scan(cb, res_clo)
     return out
+
+
+def flat(F, body, keep=(), policy="private", depth=3):
+    """the body with private helpers spliced in and constant-carrying jumps threaded (see inline.py): the form on which
+    guard/dominance rules are evaluated, so that extracting a predicate or a block into a helper, or hoisting a condition
+    into a local, does not change a verdict"""
+    import inline
+    return inline.threaded(F, inline.inlined(F, body, keep=keep, policy=policy, depth=depth))
+
+
+def only_called_from(F, path, allowed):
+    """True iff every call site of workspace function `path` lies in one of the bodies `allowed` (closures of an allowed
+    body count as that body)"""
+    for b, bi, t in F.call_sites(path):
+        root = b.root if "{closure" in b.path else b.path
+        if b.path not in allowed and root not in allowed:
+            return False
+    return True
